@@ -40,3 +40,7 @@ def implies(a, b):
 
 def old(x):       # only meaningful inside pyvc / the replay harness (which pre-evaluates old())
     return x
+
+
+def pre(x):       # start-of-iteration value inside loop step clauses (pyvc only)
+    return x
